@@ -6,6 +6,19 @@
 #ifndef VERIF_SYM_HPP
 #define VERIF_SYM_HPP
 
+#ifdef SYM_REAL_IS_FLOATING_POINT
+// only for the harness that runs libstdc++'s generic std::generate_canonical with T = sym::real: that template
+// insists on std::is_floating_point<T> and calls std::nextafter qualified (so the overload must be declared
+// before <random> is seen)
+#include <type_traits>
+namespace sym { class real; }
+namespace std
+{
+template <> struct is_floating_point<sym::real> : true_type {};
+sym::real nextafter(sym::real const& x, sym::real const& y);
+}
+#endif
+
 #include <z3++.h>
 
 #include <chrono>
@@ -748,6 +761,15 @@ inline real nexttoward(real const& x, real const& /*to*/)
 }
 inline real nexttoward(real const& x, long double to) { return nexttoward(x, real(to)); }
 
+}
+#ifdef SYM_REAL_IS_FLOATING_POINT
+namespace std
+{
+inline sym::real nextafter(sym::real const& x, sym::real const& y) { return sym::nexttoward(x, y); }
+}
+#endif
+namespace sym
+{
 // ---- stream tokens ---------------------------------------------------------------------------
 
 inline std::ostream& operator<<(std::ostream& out, real const& a)
